@@ -80,7 +80,8 @@ def cases(tier, seed):
         nt, bo = rng.choice(gens.T13), rng.choice(gens.BO)
         shape = rng.choice(SHAPES)
         if k % 2:
-            fill, ff = rng.choice([None, 0, -1, 3.7, 2 + 1j, 255]), None
+            fill, ff = rng.choice([None, 0, -1, 3.7, 2 + 1j, 255, -0.0, complex(-0.0, 0.0), complex(0.0, -0.0),
+                                   float('nan'), float('-inf'), 1e-310]), None
         else:
             fill, ff = None, rng.choice(list(FILLFUNCS))
         yield {'form': 'create', 'numtype': nt, 'bo': bo, 'shape': list(shape), 'fill': repr(fill), 'fillfunc': ff,
@@ -271,12 +272,14 @@ def run_create(case, env, res, d, rng):
     D = env.darr
     dtype = gens.dt(case['numtype'], case['bo'])
     shape = tuple(case['shape'])
-    fill = eval(case['fill'])
+    fill = eval(case['fill'], {'nan': float('nan'), 'inf': float('inf')})
     ffname = case['fillfunc']
     if isinstance(fill, complex) and dtype.kind != 'c':
         fill = 3
     if isinstance(fill, float) and dtype.kind in 'iu':
         fill = 3
+    if isinstance(fill, float) and fill == 1e-310 and dtype.itemsize < 8:
+        fill = -0.0
     if fill is not None and dtype.kind == 'u' and isinstance(fill, int) and fill < 0:
         fill = 2
     if fill == 255 and dtype.kind in 'iu' and np.iinfo(dtype).max < 255:
